@@ -5,6 +5,7 @@
 import ALV.Lemmas.C04Cx
 import ALV.Model.C04Mem
 import ALV.Spec.C04Ext
+import Mathlib.Tactic.Ring
 
 set_option linter.unusedSectionVars false
 set_option linter.unusedSimpArgs false
@@ -178,6 +179,40 @@ theorem fspec_zero_num (b as : List K) (a0 zero : K) (hb : ∀ c ∈ b, c = 0) (
   | cons x xs ih =>
     intro hy hx
     simp only [fspec, freeResp, List.length_cons, dot_zero_coeffs _ _ hb, ih]
+
+/-! ### scaling the numerator scales the response -/
+
+theorem dot_map_left (c : K) (b : List K) : ∀ v : List K, dot (b.map (· / c)) v = dot b v / c := by
+  induction b with
+  | nil => intro v; simp [dot]
+  | cons b0 bs ih =>
+    intro v
+    cases v with
+    | nil => simp [dot]
+    | cons v0 vs => simp only [List.map_cons, dot, ih, add_div]; ring
+
+theorem dot_map_right (c : K) (a : List K) : ∀ v : List K, dot a (v.map (· / c)) = dot a v / c := by
+  induction a with
+  | nil => intro v; simp [dot]
+  | cons a0 as ih =>
+    intro v
+    cases v with
+    | nil => simp [dot]
+    | cons v0 vs => simp only [List.map_cons, dot, ih, add_div]; ring
+
+theorem fspec_scale (b as : List K) (a0 c : K) (xs : List K) : ∀ hy hx : List K,
+    fspec (b.map (· / c)) as a0 0 (hy.map (· / c)) hx xs = (fspec b as a0 0 hy hx xs).map (· / c) := by
+  induction xs with
+  | nil => intro hy hx; simp [fspec]
+  | cons x xs ih =>
+    intro hy hx
+    simp only [fspec, List.map_cons, List.length_map, dot_map_left, dot_map_right]
+    have h : ∀ p q : K, (p / c - q / c) / a0 = (p - q) / a0 / c := by
+      intro p q; rw [← sub_div, div_div, div_div, mul_comm]
+    rw [h]
+    congr 1
+    have := ih (((dot b (takeP 0 b.length (x :: hx)) - dot as hy) / a0) :: hy) (x :: hx)
+    simpa using this
 
 end field
 
